@@ -1688,8 +1688,7 @@ def bestof_reduction(ctx, path, n, rule, need, ob, key, sty, k5v):
     ret, st2 = ex.summarise(key, [href], sty, st)
     reds = [r for r in ex.reductions if r["caller"] == key or r["caller"].startswith(key)]
     if len(reds) != 1:
-        ob("loop-shape", short(path), False, "neither a loop nor a single reduction over the combination table (found %d reductions)" % len(reds), where)
-        return None
+        return bestof_peel(ctx, path, n, rule, need, ob, key, sty, k5v, "neither a loop nor a single reduction over the combination table (found %d reductions)" % len(reds))
     red = reds[0]
     table = [list(r) for r in pdb.const_val(perm_table_name(path))]
     items = red["items"]
